@@ -406,7 +406,7 @@ def lkcd_seed(d, name, compression, flags):
     data += "@0x%x end\n" % (len(flags) * 0x1000)
     open(os.path.join(d, name + ".data"), "w").write(data)
     cfg = "arch_name = x86_64\npage_shift = 12\npage_offset = 0xffff880000000000\nNR_CPUS = 8\nnum_cpus = 1\n"
-    cfg += "compression = %d\nDATA = %s.data\n" % (compression, name)
+    cfg += "buffer_size = 0x1000\ncompression = %d\nDATA = %s.data\n" % (compression, name)
     run_tool("mklkcd", name + ".dump", cfg, d)
     s = Seed(name, "lkcd", [os.path.join(d, name + ".dump")])
     map_lkcd(s)
